@@ -173,7 +173,25 @@ func (p *c02) Init(tier string) {
 	rec(nil)
 }
 
-func (p *c02) NumCases() int { return len(p.cases) }
+func (p *c02) NumCases() int { return len(p.cases) + 1 }
+
+// runManyColumns: 1200 queries, each naming a column no earlier query of this process has named
+// (the selector cache is process-wide and only grows): every one must project its own column.
+func (p *c02) runManyColumns(r *core.CaseResult) {
+	for i := 0; i < 1200; i++ {
+		col := fmt.Sprintf("col_%d_x", i)
+		doc := map[string]any{"t": []any{map[string]any{"id": 0.0, col: float64(i)}, map[string]any{"id": 1.0, col: float64(-i)}}}
+		sql := fmt.Sprintf("SELECT %s AS v, %s * 2 + 1 AS w, id FROM t", col, col)
+		o := gq.Run(doc, sql)
+		r.Execs++
+		want := gq.Render([]any{map[string]any{"v": float64(i), "w": float64(2*i + 1), "id": 0.0}, map[string]any{"v": float64(-i), "w": float64(-2*i + 1), "id": 1.0}})
+		if got := outcome(o); got != want {
+			r.Fail("C02|many-columns|value", fmt.Sprintf("%s (the %d-th distinct column name of this process) returned %s (%v), want %s", sql, i+1, got, o.Err, want), map[string]any{"sql": sql, "doc": doc, "distinct_columns_before": i})
+			return
+		}
+	}
+	r.Nontrivial = true
+}
 
 func (p *c02) sqlOf(c *c02case) string {
 	if c.kind == 0 {
@@ -185,6 +203,9 @@ func (p *c02) sqlOf(c *c02case) string {
 }
 
 func (p *c02) Describe(i int) any {
+	if i == len(p.cases) {
+		return map[string]any{"kind": "1200 queries, each projecting a column name never used before in this process"}
+	}
 	c := &p.cases[i]
 	if c.kind == 0 {
 		return map[string]any{"query": p.sqlOf(c), "table": "the 6 archetype rows (negative, fraction, zero, missing key, NULL, no nested object) and the empty table"}
@@ -226,6 +247,11 @@ func itemKey(it Item) string {
 
 func (p *c02) RunCase(i int) *core.CaseResult {
 	defer withNoise()()
+	if i == len(p.cases) {
+		r := &core.CaseResult{}
+		p.runManyColumns(r)
+		return r
+	}
 	r := &core.CaseResult{}
 	c := &p.cases[i]
 	sql := p.sqlOf(c)
@@ -292,6 +318,41 @@ func (p *c02) RunCase(i int) *core.CaseResult {
 					break
 				}
 				r.Outcomes = append(r.Outcomes, gq.Render(want[k].v))
+			}
+			// row independence (implementation vs implementation, also where the reference abstains):
+			// a row's value must not depend on which other rows are in the table or on their order -
+			// "no other row's data ever appears in an output row"
+			if len(rows) > 1 && len(r.Viol) == 0 {
+				byID := map[string]string{}
+				for _, x := range out.Rows {
+					m := x.(map[string]any)
+					byID[gq.Render(m["id"])] = gq.Render(m["v"])
+				}
+				rev := make([]any, len(rows))
+				for k := range rows {
+					rev[len(rows)-1-k] = rows[k]
+				}
+				variants := [][]any{rev}
+				for k := range rows {
+					variants = append(variants, []any{rows[k]})
+				}
+				for _, vr := range variants {
+					o := gq.Run(map[string]any{"t": gq.Clone(vr)}, sql)
+					r.Execs++
+					if o.Failed() {
+						continue // the whole-table run succeeded, so no row fails by itself; a failure here is C19's matter
+					}
+					for _, x := range o.Rows {
+						m, _ := x.(map[string]any)
+						if m == nil {
+							continue
+						}
+						if got, want := gq.Render(m["v"]), byID[gq.Render(m["id"])]; got != want {
+							r.Fail("C02|expr|"+kind+"|row-dependence", fmt.Sprintf("%s: the row with id %s gives v=%s in the 6-row table but v=%s in the table %s", sql, gq.Render(m["id"]), want, got, gq.Render(vr)), map[string]any{"sql": sql, "doc": map[string]any{"t": vr}, "other_doc": doc})
+							break
+						}
+					}
+				}
 			}
 		}
 		return r
